@@ -12,6 +12,7 @@ import (
 	"strings"
 	"time"
 
+	"verif/harness/canon"
 	"verif/harness/impl"
 	"verif/harness/tracegen"
 	"verif/harness/wire"
@@ -48,10 +49,11 @@ func main() {
 	keysets := map[string][]string{
 		"string": {"k1", "k2", "K1", "k3"}, "keys": {"k1", "k2", "K1", "s1"},
 		"list": {"l1", "l2", "L1"}, "hash": {"h1", "h2", "H1"}, "set": {"s1", "s2", "s3", "S1"},
-		"zset": {"z1", "z2", "Z1"}, "stream": {"x1", "x2", "X1"},
+		"zset": {"z1", "z2", "Z1"}, "stream": {"x1", "x2", "X1"}, "zsetdeep": {"zd"}, "lifecycle": {"q1", "q2"},
 	}
 	panics := 0
 	wireProblems := 0
+	structural := 0
 	for p := 0; p < *progs; p++ {
 		pn := *pbase + p
 		srv := impl.NewSrv(1)
@@ -80,6 +82,15 @@ func main() {
 			for ci, c := range cmds {
 				now := time.Now().Unix()
 				rep := srv.Exec(impl.S(c...))
+				if rep.K != "panic" {
+					// structural invariants of the implementation after EVERY command ("at every intermediate state")
+					if bad := canon.StructureOK(srv); bad != "" {
+						structural++
+						rep = impl.Reply{K: "structure", V: []int{}, A: []impl.Reply{}, E: bad}
+						emit(ci, c, now, rep)
+						break
+					}
+				}
 				emit(ci, c, now, rep)
 				if rep.K == "panic" {
 					panics++
@@ -192,5 +203,5 @@ func main() {
 	}
 	w.Flush()
 	f.Close()
-	fmt.Printf("programmes=%d panics=%d wire_problems=%d\n", *progs, panics, wireProblems)
+	fmt.Printf("programmes=%d panics=%d wire_problems=%d structural=%d\n", *progs, panics, wireProblems, structural)
 }
